@@ -140,6 +140,50 @@ def reader_accepts_writer(ctx, R="R-C17-reader-accepts-writer"):
                       "negative-mean features and a variance computed from the sums can be slightly negative by round-off): valid "
                       "statistics would fail to reload" % S.show(cj)[:160])
     ctx.floor(R, n, 2)
+    # the same for validity tests made by the constructor itself (helpers that the reference does not have are read through):
+    # they see the statistics of every source - archives and tables as well - so they, too, may only demand what the writer guarantees
+    init = prog.own_method(_std(prog), "__init__")
+    try:
+        evi = SymEval(prog, init, inline_props=False).run()
+    except Exception:
+        evi = None
+    if evi is not None:
+        SHAPE_OK = ("(self._stats.ndim == 2)", "(getitem(self._stats.shape, 0) == 2)", "(1 < getitem(self._stats.shape, 1))", "(2 <= getitem(self._stats.shape, 1))",
+                    "(len(self._stats.shape) == 2)", "(getitem(self._stats.shape, 1) > 1)", "(getitem(self._stats.shape, 1) >= 2)","(.ndim(self._stats) == 2)", "(getitem(.shape(self._stats), 0) == 2)", "(getitem(.shape(self._stats), 1) > 1)", "(getitem(.shape(self._stats), 1) >= 2)",
+                    "(len(.shape(self._stats)) == 2)")
+        for node in init.body_nodes():
+            rhs = None
+            if isinstance(node, ast.Assign) and astq.is_name(node.targets[0], "valid"):
+                rhs = node.value
+            elif isinstance(node, ast.AugAssign) and astq.is_name(node.target, "valid") and isinstance(node.op, ast.BitAnd):
+                rhs = node.value
+            if rhs is None or isinstance(rhs, ast.Constant) or not evi.reached(node):
+                continue
+            try:
+                e = evi.eval_at(node, rhs)
+            except Exception:
+                continue
+            from .. import scenario as SC
+            e = SC.transform(e, lambda x: S.sym("self._stats") if (x.op == "unknown" and str(x.args[0]) == "after-loop:self._stats") else None)
+            for cj in conjuncts(e):
+                # the earlier conjuncts of an `a and b` chain come back as guards of conditional values: look at the leaves
+                leaves = [cj]
+                while any(x.op == "cond" for x in leaves):
+                    leaves = [y for x in leaves for y in ([x.args[1], x.args[2]] if x.op == "cond" else [x])]
+                for lf in leaves:
+                    if lf.is_const:
+                        continue
+                    txt = S.show(lf)
+                    if any(S.compare(lf, a, domain={})["verdict"] == "equal" for a in allowed) or txt in SHAPE_OK or txt.replace("self._stats", "stats") in SHAPE_OK:
+                        continue
+                    rows = [x for x in S.walk(lf) if isinstance(x, S.E) and cc.is_call(x, "getitem") and x.args[1] == S.sym("self._stats")]
+                    if rows:
+                        ctx.bad(R, init, node, "the constructor rejects loaded statistics unless `%s`, which accumulated statistics need not satisfy in floating point "
+                                "(a coefficient that is constant gives a variance that is slightly negative by round-off; sums are negative for negative-mean "
+                                "features): statistics that were saved cannot be loaded again" % txt[:160],
+                                "the loader's constraints hold for everything the accumulators can write", robust=True)
+                    else:
+                        ctx.error(R, "cannot decide whether saved statistics always satisfy the constructor's test `%s`" % txt[:120])
     # the first step reshapes to (2, -1)
     rs = [n_ for n_ in tries[0].body if isinstance(n_, ast.Assign) and astq.is_self_attr(n_.targets[0], "self", "_stats")]
     ok = len(rs) >= 1 and astq.eq_text(rs[0].value, "self._stats.reshape((2,-1))")
